@@ -102,6 +102,7 @@ type verifHandler struct {
 	exits    int32
 	consumed []byte
 	faults   bool
+	ended    bool
 	maxConn  int32
 	mgr      *SessionMgr
 }
@@ -110,11 +111,14 @@ func (h *verifHandler) Read(s *Session) error {
 	if h.mgr != nil {
 		symx.Assert(h.mgr.ConnCount() <= h.maxConn, "the connection count never exceeds the configured maximum")
 	}
+	symx.Assert(!h.ended, "the read handler is not called again after it failed or panicked: that ends the session")
 	if h.faults {
 		switch symx.Concrete(symx.Int("handler"), 0, 2) {
 		case 1:
+			h.ended = true
 			return verifErrIO
 		case 2:
+			h.ended = true
 			panic("handler blew up")
 		}
 	}
